@@ -349,7 +349,10 @@ func (e *Env) objVal(obj types.Object) val {
 			}
 		}
 		comp := vc.globalComp(o.Pkg().Path(), o.Name(), o.Type())
-		return val{vc.get(e.cur, comp), o.Type(), vc.sortOf(o.Type())}
+		gv := vc.get(e.cur, comp)
+		// a package-level map/slice is not owned by any monitor (same discipline assumption as for loads in code)
+		e.x.assumeUnowned(e.cur, gv, o.Type())
+		return val{gv, o.Type(), vc.sortOf(o.Type())}
 	case *types.Func:
 		if f := e.x.g.prog.FuncValue(o); f != nil {
 			return val{e.x.funcRef(f), o.Type(), sInt}
@@ -1287,6 +1290,32 @@ func (e *Env) compByName(name string) string {
 		}
 	}
 	return ""
+}
+
+// compsByName: like compByName, but a struct-valued field stands for the heaps of all fields of the embedded struct.
+func (e *Env) compsByName(name string) []string {
+	if ft := e.fieldTypeByName(name); ft != nil && !strings.Contains(name, ":") {
+		if _, isStruct := ft.Underlying().(*types.Struct); isStruct {
+			var out []string
+			var walk func(t types.Type)
+			walk = func(t types.Type) {
+				st := t.Underlying().(*types.Struct)
+				for i := 0; i < st.NumFields(); i++ {
+					if _, inner := st.Field(i).Type().Underlying().(*types.Struct); inner {
+						walk(st.Field(i).Type())
+						continue
+					}
+					out = append(out, e.vc.fieldHeap(t, i))
+				}
+			}
+			walk(ft)
+			return out
+		}
+	}
+	if c := e.compByName(name); c != "" {
+		return []string{c}
+	}
+	return nil
 }
 
 func (e *Env) fieldTypeByName(name string) types.Type {
